@@ -251,6 +251,7 @@ func execC15(spec *RunSpec) *Result {
 		h = hashBytes([]byte(fmt.Sprint(h)), o.Out, []byte(o.Err))
 		if o.Panic != "" || o.Overrun {
 			res.addStat("c11_class_events", 1)
+			noteCrash(res, spec, c.i, c.op, o)
 			continue
 		}
 		fspec := cloneSpec(spec)
